@@ -52,7 +52,12 @@ func run(r *ev.Run) {
 	}
 
 	phase("calibration")
-	regressionWitnesses(r, st)
+	if regressionWitnesses(r, st) {
+		// a range query that does not return: the end-to-end workload would hang on
+		// the same defect, the violation is already recorded with its witness
+		r.MinDistinct = 0
+		return
+	}
 	phase("regression")
 
 	g := r.Rng("images")
@@ -96,7 +101,7 @@ func run(r *ev.Run) {
 		r.Count("docs_"+k.String(), len(c.docs))
 		phase("index-" + k.String())
 		qs := crossQueries(k, core)
-		qs = append(qs, randomQueries(k, vals, r.Rng("queries-"+k.String()), r.Scale(4000, 300000))...)
+		qs = append(qs, randomQueries(k, vals, r.Rng("queries-"+k.String()), r.Scale(4000, 200000))...)
 		runRangeQueries(r, st, engs, c, qs, "main", 16)
 		phase("range-queries-" + k.String())
 		r.JournalReset()
@@ -112,7 +117,7 @@ func run(r *ev.Run) {
 
 // regressionWitnesses replays the shrunk witnesses of the defects this monitor
 // found on the pinned tree, first thing on every run.
-func regressionWitnesses(r *ev.Run, st *enumState) {
+func regressionWitnesses(r *ev.Run, st *enumState) (hungQuery bool) {
 	t := true
 	one := refFloatToImg(1.0)
 	y2000 := int64(946684800000000000)
@@ -169,6 +174,47 @@ func regressionWitnesses(r *ev.Run, st *enumState) {
 			numOpen = append(numOpen, rangeQ{Kind: kNum, Lo: nil, Hi: ptr(one), IL: il, IH: ih})
 		}
 	}
+	// the same witnesses end to end, under a generous wall-clock guard: a range
+	// query that is still running after 90 s (it needs microseconds) does not
+	// terminate. This does not depend on the verif export mirroring the searcher.
+	hung := false
+	for qi, q := range blow {
+		docs, k := numDocs, kNum
+		if q.Kind == kDate {
+			docs, k = dateDocs, kDate
+		}
+		c := newCorpus(k, docs[:4])
+		for _, en := range engines {
+			idx, err := buildIndex(en, c, r.Rng("terminates-"+en), 4)
+			if err != nil {
+				continue
+			}
+			r.Journal(map[string]any{"terminates_probe": q.describe(), "engine": en})
+			done := make(chan struct{})
+			go func() {
+				defer close(done)
+				_, _, _, _, _, _ = searchIDs(idx, q, 10)
+			}()
+			select {
+			case <-done:
+				r.Count("regression_termination_probes_returned", 1)
+				_ = idx.Close()
+			case <-time.After(90 * time.Second):
+				hung = true
+				w := q.describe()
+				w["engine"] = en
+				r.Violation(clsBlowup, fmt.Sprintf("%s min=%s max=%s on %s did not return within 90 s (witness %d)", w["query"], w["min"], w["max"], en, qi), w)
+				// the index is abandoned together with the stuck search
+			}
+		}
+		if hung {
+			break
+		}
+	}
+	if hung {
+		r.JournalReset()
+		return true
+	}
 	for _, set := range []struct {
 		k    kind
 		docs []docSpec
@@ -190,4 +236,5 @@ func regressionWitnesses(r *ev.Run, st *enumState) {
 		}
 	}
 	r.JournalReset()
+	return false
 }
